@@ -546,3 +546,254 @@ Proof.
   destruct (merge_files_from [] ins) as [out|], (merge_onto_from [] dest ins) as [[seen fs]|]; try contradiction; [|exact I].
   apply S.
 Qed.
+
+(* ------------------------------------------------------------------ tar archives: the last member of a name is the current one *)
+Fixpoint last_of (n : string) (a : archive) : option (option string) :=
+  match a with
+  | [] => None
+  | (n', d) :: a' => match last_of n a' with Some x => Some x | None => if eqb n n' then Some d else None end
+  end.
+
+Lemma last_of_None n a : last_of n a = None <-> ~ In n (map fst a).
+Proof.
+  induction a as [|[n' d] a IH]; cbn; [tauto|]. destruct (last_of n a) as [x|].
+  - split; [discriminate|]. intros N. exfalso. assert (X : Some x = None) by (apply IH; tauto). discriminate.
+  - destruct (eqb_spec n n') as [->|N]; [split; [discriminate|tauto]|].
+    split; [|reflexivity]. intros _ [E|I]; [congruence|]. apply (proj1 IH eq_refl I).
+Qed.
+
+Lemma last_of_char n a x :
+  last_of n a = Some x <-> exists l1 l2, a = l1 ++ (n, x) :: l2 /\ ~ In n (map fst l2).
+Proof.
+  induction a as [|[n' d] a IH]; cbn [last_of].
+  - split; [discriminate|]. intros (l1 & l2 & E & _). destruct l1; discriminate.
+  - destruct (last_of n a) as [y|] eqn:L.
+    + split.
+      * intros [= <-]. destruct (proj1 IH eq_refl) as (l1 & l2 & E & N). exists ((n', d) :: l1), l2. subst a. auto.
+      * intros (l1 & l2 & E & N). destruct l1 as [|e l1]; cbn in E.
+        -- injection E as -> -> ->. apply last_of_None in N. congruence.
+        -- injection E as <- ->. apply IH. eauto.
+    + pose proof (proj1 (last_of_None n a) L) as NI. destruct (eqb_spec n n') as [<-|NE].
+      * split.
+        -- intros [= <-]. exists [], a. auto.
+        -- intros (l1 & l2 & E & N). destruct l1 as [|e l1]; cbn in E; [congruence|].
+           injection E as <- ->. exfalso. apply NI. rewrite map_app, in_app_iff. right. left. reflexivity.
+      * split; [discriminate|]. intros (l1 & l2 & E & N). destruct l1 as [|e l1]; cbn in E; [congruence|].
+        injection E as <- ->. exfalso. apply NI. rewrite map_app, in_app_iff. right. left. reflexivity.
+Qed.
+
+Lemma last_of_app n a b :
+  last_of n (a ++ b) = match last_of n b with Some x => Some x | None => last_of n a end.
+Proof.
+  induction a as [|[n' d] a IH]; cbn; [destruct (last_of n b); reflexivity|].
+  rewrite IH. destruct (last_of n b); reflexivity.
+Qed.
+
+Lemma index_from_lookup a : forall m n,
+  lookup n (fold_left (fun m (e : tmember) => insert (fst e) (snd e) m) a m) =
+  match last_of n a with Some x => Some x | None => lookup n m end.
+Proof.
+  induction a as [|[n' d] a IH]; intros m n; cbn [fold_left last_of]; [reflexivity|].
+  rewrite IH. destruct (last_of n a); [reflexivity|]. cbn [fst snd]. rewrite lookup_insert.
+  destruct (eqb_spec n n'); reflexivity.
+Qed.
+
+Lemma tar_index_lookup a n : lookup n (tar_index a) = last_of n a.
+Proof. unfold tar_index. rewrite index_from_lookup. destruct (last_of n a); reflexivity. Qed.
+
+Lemma tar_read_char a n b :
+  tar_read a n = Some b <-> exists l1 l2, a = l1 ++ (n, Some b) :: l2 /\ ~ In n (map fst l2).
+Proof.
+  unfold tar_read. rewrite tar_index_lookup, <- last_of_char.
+  destruct (last_of n a) as [[d|]|]; split; congruence.
+Qed.
+
+Lemma tar_read_append a n d n' :
+  tar_read (tar_append a n d) n' = if eqb n' n then Some d else tar_read a n'.
+Proof.
+  unfold tar_read, tar_append. rewrite !tar_index_lookup, last_of_app. cbn [last_of].
+  destruct (eqb_spec n' n); reflexivity.
+Qed.
+
+Lemma tar_names_In a n : In n (tar_names a) <-> In n (map fst a).
+Proof.
+  unfold tar_names. rewrite <- lookup_In_keys, tar_index_lookup.
+  pose proof (last_of_None n a) as X. destruct (last_of n a).
+  - split; [|discriminate]. intros _. destruct (in_dec string_dec n (map fst a)) as [I|I]; [exact I|].
+    apply X in I. discriminate.
+  - split; [congruence|]. intros I. exfalso. apply (proj1 X eq_refl I).
+Qed.
+
+Lemma fold_insert_wf (a : archive) : forall m : al string (option string), wf m ->
+  wf (fold_left (fun m (e : tmember) => insert (fst e) (snd e) m) a m).
+Proof. induction a as [|e a IH]; intros m W; cbn; [exact W|]. apply IH. apply wf_insert. exact W. Qed.
+
+Lemma tar_names_NoDup a : NoDup (tar_names a).
+Proof. apply (fold_insert_wf a []). apply wf_nil. Qed.
+
+(* ------------------------------------------------------------------ sources: directories and archive members *)
+Definition find_src (p : string) (ss : list fsource) : option fsource := find (fun s => eqb (src_path s) p) ss.
+
+(* [b] is the current content of source [s]: the content of the file, or the bytes of the LAST member named m *)
+Definition src_current (ar : list archive) (s : fsource) (b : string) : Prop :=
+  match s with
+  | InDir _ _ d => b = d
+  | InTar _ _ k m => exists a l1 l2, nth_error ar k = Some a /\ a = l1 ++ (m, Some b) :: l2 /\ ~ In m (map fst l2)
+  end.
+
+Lemma resolve_path ar s e : resolve ar s = Some e -> f_path e = src_path s.
+Proof.
+  destruct s as [p u d|p u k m]; cbn; [intros [= <-]; reflexivity|].
+  destruct (nth_error ar k) as [a|]; [|discriminate]. destruct (tar_read a m); [|discriminate].
+  intros [= <-]; reflexivity.
+Qed.
+
+Lemma resolve_current ar s b : (exists e, resolve ar s = Some e /\ f_data e = b) <-> src_current ar s b.
+Proof.
+  destruct s as [p u d|p u k m]; cbn [resolve src_current].
+  - split; [intros (e & [= <-] & D); cbn in D; auto|]. intros ->. eexists; split; reflexivity.
+  - split.
+    + intros (e & R & D). destruct (nth_error ar k) as [a|]; [|discriminate].
+      destruct (tar_read a m) as [d|] eqn:T; [|discriminate]. injection R as <-. cbn in D. subst d.
+      apply tar_read_char in T. destruct T as (l1 & l2 & E & N). exists a, l1, l2. auto.
+    + intros (a & l1 & l2 & Na & E & N). rewrite Na.
+      assert (T : tar_read a m = Some b) by (apply tar_read_char; eauto).
+      rewrite T. eexists; split; reflexivity.
+Qed.
+
+Lemma resolve_list_find ar p : forall ss es, resolve_list ar ss = Some es ->
+  match find_src p ss with
+  | Some s => exists e, resolve ar s = Some e /\ find_entry p es = Some e
+  | None => find_entry p es = None
+  end.
+Proof.
+  induction ss as [|s ss IH]; intros es; cbn [resolve_list]; [intros [= <-]; reflexivity|].
+  destruct (resolve ar s) as [e|] eqn:R; [|discriminate].
+  destruct (resolve_list ar ss) as [es'|]; [|discriminate]. intros [= <-].
+  specialize (IH es' eq_refl). unfold find_src, find_entry in *. cbn [find].
+  rewrite (resolve_path _ _ _ R). destruct (eqb_spec (src_path s) p); [eauto|exact IH].
+Qed.
+
+Lemma resolve_inputs_first p : forall archs srcs fs, resolve_inputs archs srcs = Some fs ->
+  forall b, first_in p fs = Some b <->
+    exists i ar ss s, nth_error archs i = Some ar /\ nth_error srcs i = Some ss /\ find_src p ss = Some s /\
+      (forall i' ss', (i' < i)%nat -> nth_error srcs i' = Some ss' -> find_src p ss' = None) /\
+      exists e, resolve ar s = Some e /\ f_data e = b.
+Proof.
+  induction archs as [|ar archs IH]; intros [|ss srcs] fs; cbn [resolve_inputs]; try discriminate.
+  - intros [= <-] b. cbn. split; [discriminate|]. intros (i & ar & ss & s & N & _). destruct i; discriminate.
+  - destruct (resolve_list ar ss) as [es|] eqn:RL; [|discriminate].
+    destruct (resolve_inputs archs srcs) as [r|] eqn:RI; [|discriminate]. intros [= <-] b. cbn [first_in].
+    pose proof (resolve_list_find ar p ss es RL) as F. destruct (find_src p ss) as [s|] eqn:FS.
+    + destruct F as (e & R & FE). rewrite FE. split.
+      * intros [= <-]. exists 0%nat, ar, ss, s. cbn. repeat split; auto; [intros; lia|eauto].
+      * intros (i & ar1 & ss1 & s1 & Na & Ns & F1 & Min & e1 & R1 & D). destruct i as [|i].
+        -- cbn in Na, Ns. injection Na as <-. injection Ns as <-. congruence.
+        -- specialize (Min 0%nat ss (Nat.lt_0_succ i) eq_refl). congruence.
+    + rewrite F, (IH srcs r RI b). split.
+      * intros (i & ar1 & ss1 & s1 & Na & Ns & F1 & Min & X). exists (S i), ar1, ss1, s1. cbn. repeat split; auto.
+        intros [|i'] ss' L E'; cbn in E'; [congruence|]. apply (Min i' ss'); [lia|assumption].
+      * intros (i & ar1 & ss1 & s1 & Na & Ns & F1 & Min & X). destruct i as [|i]; cbn in Na, Ns; [congruence|].
+        exists i, ar1, ss1, s1. repeat split; auto. intros i' ss' L E'. apply (Min (S i') ss'); [lia|assumption].
+Qed.
+
+Lemma merge_sources_lookup archs srcs out p b :
+  merge_sources archs srcs = Some out ->
+  (lookup p out = Some b <->
+   exists i ar ss s, nth_error archs i = Some ar /\ nth_error srcs i = Some ss /\ find_src p ss = Some s /\
+     (forall i' ss', (i' < i)%nat -> nth_error srcs i' = Some ss' -> find_src p ss' = None) /\
+     src_current ar s b).
+Proof.
+  unfold merge_sources. destruct (resolve_inputs archs srcs) as [fs|] eqn:R; [|discriminate]. intros E.
+  rewrite (merge_files_lookup _ _ p E), (resolve_inputs_first p _ _ _ R b).
+  split; intros (i & ar & ss & s & Na & Ns & F & Min & X); exists i, ar, ss, s; repeat split; auto;
+    apply resolve_current; exact X.
+Qed.
+
+(* merging into a destination that is not empty reads the archives in the same way *)
+Lemma merge_sources_onto_spec dest archs srcs :
+  match merge_sources archs srcs, merge_sources_onto dest archs srcs with
+  | Some out, Some fs => forall p, lookup p fs = overlay out dest p
+  | None, None => True
+  | _, _ => False
+  end.
+Proof.
+  unfold merge_sources, merge_sources_onto. destruct (resolve_inputs archs srcs) as [fs|]; [|exact I].
+  apply merge_files_onto_spec.
+Qed.
+
+(* ------------------------------------------------------------------ histories of appends *)
+Fixpoint last_write (n : string) (ws : list (string * string)) : option string :=
+  match ws with
+  | [] => None
+  | (n', d) :: ws' => match last_write n ws' with Some x => Some x | None => if eqb n n' then Some d else None end
+  end.
+Definition tar_history (a : archive) (ws : list (string * string)) : archive :=
+  fold_left (fun a w => tar_append a (fst w) (snd w)) ws a.
+
+Lemma tar_history_app ws : forall a, tar_history a ws = a ++ map (fun w => (fst w, Some (snd w))) ws.
+Proof.
+  induction ws as [|w ws IH]; intros a; cbn; [rewrite app_nil_r; reflexivity|].
+  unfold tar_history in IH. rewrite IH. unfold tar_append. rewrite <- app_assoc. reflexivity.
+Qed.
+
+Lemma last_of_writes n ws :
+  last_of n (map (fun w : string * string => (fst w, Some (snd w))) ws) =
+  match last_write n ws with Some d => Some (Some d) | None => None end.
+Proof.
+  induction ws as [|[n' d] ws IH]; cbn; [reflexivity|]. rewrite IH.
+  destruct (last_write n ws); [reflexivity|]. destruct (eqb_spec n n'); reflexivity.
+Qed.
+
+Lemma tar_read_history a ws n :
+  tar_read (tar_history a ws) n = match last_write n ws with Some d => Some d | None => tar_read a n end.
+Proof.
+  unfold tar_read. rewrite !tar_index_lookup, tar_history_app, last_of_app, last_of_writes.
+  destruct (last_write n ws); reflexivity.
+Qed.
+
+(* ------------------------------------------------------------------ the transfer from sources cannot fail on well-formed inputs *)
+Definition src_ok (ar : list archive) (s : fsource) : Prop :=
+  match s with
+  | InDir _ _ _ => True
+  | InTar _ u k m => exists a b, nth_error ar k = Some a /\ tar_read a m = Some b /\
+                                 0 < u /\ Z.of_nat (String.length b) mod u = 0
+  end.
+
+Lemma resolve_list_ok ar ss : Forall (src_ok ar) ss ->
+  exists es, resolve_list ar ss = Some es /\ Forall whole_rows es.
+Proof.
+  induction 1 as [|s ss Hs _ IH]; cbn [resolve_list]; [eauto|]. destruct IH as (es & -> & W).
+  destruct s as [p u d|p u k m]; cbn [resolve src_ok] in *.
+  - eexists; split; [reflexivity|]. constructor; [|exact W]. intros T; discriminate.
+  - destruct Hs as (a & b & -> & -> & P & M). eexists; split; [reflexivity|]. constructor; [|exact W].
+    intros _. cbn. auto.
+Qed.
+
+Lemma resolve_inputs_ok archs srcs : Forall2 (fun ar ss => Forall (src_ok ar) ss) archs srcs ->
+  exists fs, resolve_inputs archs srcs = Some fs /\ Forall (Forall whole_rows) fs.
+Proof.
+  induction 1 as [|ar ss archs srcs H _ IH]; cbn [resolve_inputs]; [eauto|].
+  destruct (resolve_list_ok ar ss H) as (es & -> & W). destruct IH as (fs & -> & Wf). eauto.
+Qed.
+
+Lemma merge_sources_total archs srcs : Forall2 (fun ar ss => Forall (src_ok ar) ss) archs srcs ->
+  exists out, merge_sources archs srcs = Some out.
+Proof.
+  intros H. destruct (resolve_inputs_ok archs srcs H) as (fs & R & W). unfold merge_sources. rewrite R.
+  exact (merge_files_from_total fs [] W).
+Qed.
+
+(* ------------------------------------------------------------------ what a reader lists for an archive *)
+Lemma regular_In (m : al string (option string)) n d : In (n, d) (regular m) <-> In (n, Some d) m.
+Proof.
+  unfold regular. rewrite in_flat_map. split.
+  - intros ([n' [d'|]] & I & H); cbn in H; [|destruct H]. destruct H as [E|[]]. injection E as -> ->. exact I.
+  - intros I. exists (n, Some d). split; [exact I|left; reflexivity].
+Qed.
+
+Lemma tar_listing_char a n d : In (n, d) (regular (tar_index a)) <-> tar_read a n = Some d.
+Proof.
+  rewrite regular_In. rewrite <- (lookup_In n (Some d) (tar_index a) (tar_names_NoDup a)). unfold tar_read.
+  destruct (lookup n (tar_index a)) as [[x|]|]; split; congruence.
+Qed.
